@@ -916,6 +916,160 @@ def a_temp_into_source(fn, bi, i, j):
     return True
 
 
+def _ends_in_jump(stmts):
+    return bool(stmts) and isinstance(stmts[-1], (ast.Raise, ast.Return, ast.Continue, ast.Break))
+
+
+def c_guard_hoist(fn, ref):
+    """if B: (if A: <raise/return>) ; rest    ->    if A and B: <raise/return> ; if B: rest      (A, B call-free; both operand orders)"""
+    out = []
+    for bi, (o, f) in enumerate(blocks(fn)):
+        for i, s in enumerate(getattr(o, f)):
+            if isinstance(s, ast.If) and not s.orelse and len(s.body) >= 2 and isinstance(s.body[0], ast.If) and not s.body[0].orelse \
+                    and _ends_in_jump(s.body[0].body) and not _has_call(s.test) and not _has_call(s.body[0].test):
+                # the rest must not change what B reads (it runs after the test either way), nothing else to check
+                out.append((bi, i, 0))
+                out.append((bi, i, 1))
+    return out
+
+
+def a_guard_hoist(fn, bi, i, order):
+    o, f = blocks(fn)[bi]
+    b = getattr(o, f)
+    s = b[i]
+    inner = s.body[0]
+    vals = [inner.test, copy.deepcopy(s.test)] if order == 0 else [copy.deepcopy(s.test), inner.test]
+    flat = []
+    for v in vals:
+        flat += v.values if isinstance(v, ast.BoolOp) and isinstance(v.op, ast.And) else [v]
+    g = ast.copy_location(ast.If(ast.BoolOp(ast.And(), flat), inner.body, []), inner)
+    s.body = s.body[1:]
+    b.insert(i, g)
+    return True
+
+
+def c_guard_nest(fn, ref):
+    """if A and B: <raise/return> ; if B: rest    ->    if B: (if A: <raise/return>) ; rest"""
+    out = []
+    for bi, (o, f) in enumerate(blocks(fn)):
+        b = getattr(o, f)
+        for i in range(len(b) - 1):
+            g, s = b[i], b[i + 1]
+            if isinstance(g, ast.If) and isinstance(s, ast.If) and not g.orelse and not s.orelse and _ends_in_jump(g.body) \
+                    and isinstance(g.test, ast.BoolOp) and isinstance(g.test.op, ast.And) and not _has_call(g.test) and not _has_call(s.test):
+                bt = ast.unparse(s.test)
+                vals = [ast.unparse(v) for v in g.test.values]
+                svals = [ast.unparse(v) for v in (s.test.values if isinstance(s.test, ast.BoolOp) and isinstance(s.test.op, ast.And) else [s.test])]
+                if all(v in vals for v in svals) and len(svals) < len(vals):
+                    out.append((bi, i))
+                del bt
+    return out
+
+
+def a_guard_nest(fn, bi, i):
+    o, f = blocks(fn)[bi]
+    b = getattr(o, f)
+    g, s = b[i], b[i + 1]
+    svals = [ast.unparse(v) for v in (s.test.values if isinstance(s.test, ast.BoolOp) and isinstance(s.test.op, ast.And) else [s.test])]
+    rest = [v for v in g.test.values if ast.unparse(v) not in svals]
+    inner = ast.copy_location(ast.If(rest[0] if len(rest) == 1 else ast.BoolOp(ast.And(), rest), g.body, []), g)
+    s.body = [inner] + s.body
+    del b[i]
+    return True
+
+
+def c_unsuffix_all(fn, ref):
+    """All temporaries introduced by helper inlining (`name__hN`) get their plain names back in one step: `name__hN = name` at the top
+    level with `name` unused afterwards is dropped and the temporary spelled `name`; any other `x__hN` whose plain name is free is renamed."""
+    import re as _re
+    if any(_re.search(r"__h\d+$", n) for n in ref["new"]):
+        return [()]
+    return []
+
+
+def _drop_self_pairs(st):
+    """`a, b = (a, t)` -> `b = t`; `a = a` -> None"""
+    tg, v = st.targets[0], st.value
+    if isinstance(tg, ast.Name):
+        return None if isinstance(v, ast.Name) and v.id == tg.id else st
+    pairs = [(a, b) for a, b in zip(tg.elts, v.elts) if not (isinstance(a, ast.Name) and isinstance(b, ast.Name) and a.id == b.id)]
+    if not pairs:
+        return None
+    if len(pairs) == 1:
+        return ast.copy_location(ast.Assign([pairs[0][0]], pairs[0][1]), st)
+    st.targets = [ast.Tuple([a for a, _ in pairs], ast.Store())]
+    st.value = ast.Tuple([b for _, b in pairs], ast.Load())
+    return st
+
+
+def a_unsuffix_all(fn):
+    import re as _re
+    changed = False
+
+    def count(nodes, name):
+        return sum(1 for st in nodes for n in ast.walk(st) if isinstance(n, ast.Name) and n.id == name)
+
+    again = True
+    while again:
+        again = False
+        for o, f in blocks(fn):
+            body = getattr(o, f)
+            for i, s in enumerate(body):
+                if not (isinstance(s, ast.Assign) and len(s.targets) == 1 and isinstance(s.targets[0], ast.Name) and isinstance(s.value, ast.Name)
+                        and _re.fullmatch(_re.escape(s.value.id) + r"__h\d+", s.targets[0].id)):
+                    continue
+                t, x = s.targets[0].id, s.value.id
+                total_t = count([fn], t)
+                # (a) the plain name is never mentioned again (top level of the function only: no loop can bring control back)
+                if o is fn and count(body[i + 1:], x) == 0 and count(body[:i], t) == 0:
+                    for st in body[i + 1:]:
+                        for n in ast.walk(st):
+                            if isinstance(n, ast.Name) and n.id == t:
+                                n.id = x
+                    del body[i]
+                    changed = again = True
+                    break
+                # (b) the next statement that mentions the plain name copies the temporary back into it, and the temporary dies there
+                j = next((k for k in range(i + 1, len(body)) if count([body[k]], x)), None)
+                if j is None:
+                    continue
+                fin = body[j]
+                if not (isinstance(fin, ast.Assign) and len(fin.targets) == 1 and count([fin], x) == 1):
+                    continue
+                tg, v = fin.targets[0], fin.value
+                back = (isinstance(tg, ast.Name) and tg.id == x and isinstance(v, ast.Name) and v.id == t) or (
+                    isinstance(tg, ast.Tuple) and isinstance(v, ast.Tuple) and len(tg.elts) == len(v.elts)
+                    and any(isinstance(a, ast.Name) and a.id == x and isinstance(b, ast.Name) and b.id == t for a, b in zip(tg.elts, v.elts)))
+                if not back or count(body[i:j + 1], t) != total_t:
+                    continue
+                for st in body[i + 1:j + 1]:
+                    for n in ast.walk(st):
+                        if isinstance(n, ast.Name) and n.id == t:
+                            n.id = x
+                rep = _drop_self_pairs(fin)
+                if rep is None:
+                    del body[j]
+                else:
+                    body[j] = rep
+                del body[i]
+                if not body:
+                    body.append(ast.Pass())
+                changed = again = True
+                break
+            if again:
+                break
+    names = _names(fn) | {a.arg for n in ast.walk(fn) if isinstance(n, ast.arguments) for a in n.args + n.kwonlyargs + n.posonlyargs}
+    for t in sorted(names):
+        m = _re.fullmatch(r"(.+)__h\d+", t)
+        if m and m.group(1) not in names:
+            for n in ast.walk(fn):
+                if isinstance(n, ast.Name) and n.id == t:
+                    n.id = m.group(1)
+            names.add(m.group(1))
+            changed = True
+    return changed
+
+
 def c_tail_dup(fn, ref):
     """if c: A else: B ; S   ->   if c: A; S  else: B; S        (S a simple statement; neither arm ends in a jump)"""
     out = []
@@ -1069,6 +1223,9 @@ REWRITES = [
     ("if-to-ifexp", c_if_to_ifexp, a_if_to_ifexp),
     ("flag-into-arms", c_flag_into_arms, a_flag_into_arms),
     ("temp-into-source", c_temp_into_source, a_temp_into_source),
+    ("unsuffix-all", c_unsuffix_all, a_unsuffix_all),
+    ("guard-hoist", c_guard_hoist, a_guard_hoist),
+    ("guard-nest", c_guard_nest, a_guard_nest),
     ("tail-dup", c_tail_dup, a_tail_dup),
     ("tail-merge", c_tail_merge, a_tail_merge),
     ("hoist-gone-local", c_hoist_gone_local, a_hoist_gone_local),
